@@ -5,8 +5,6 @@ import (
 	"reflect"
 )
 
-func runIntro(file []byte) {}
-
 func reflectElem(r *Rec) reflect.Value { return reflect.ValueOf(r).Elem() }
 
 func writeFile(p string, b []byte) { os.WriteFile(p, b, 0o644) }
